@@ -121,6 +121,7 @@ func (r *Report) Own(s OwnSpec) {
 	rule := "OWN: " + s.Op + " only in the owner table"
 	n := 0
 	byOwner := map[string]int{}
+	fnOf := map[string]*ssa.Function{}
 	var firstPos = map[string]string{}
 	for _, site := range s.Sites {
 		if cls := r.P.FileClass(r.P.FuncPos(site.Fn)); !inClass(cls) && !(Outer(site.Fn).Synthetic == "package initializer" && inClass("prod")) {
@@ -128,6 +129,7 @@ func (r *Report) Own(s OwnSpec) {
 		}
 		n++
 		name := r.P.FuncName(Outer(site.Fn))
+		fnOf[name] = Outer(site.Fn)
 		byOwner[name]++
 		if _, ok := firstPos[name]; !ok {
 			firstPos[name] = r.P.Pos(site.Pos)
@@ -144,15 +146,58 @@ func (r *Report) Own(s OwnSpec) {
 	}
 	sort.Strings(names)
 	bad := 0
+	var via []string
 	for _, name := range names {
 		if _, ok := r.ownerOf(s.Owners, name); !ok {
+			// a private helper that only owners call (and that is never used as a value) adds no new way to trigger the
+			// operation: the code of an owner was extracted into it
+			if len(s.Owners) > 0 && r.onlyCalledByOwners(fnOf[name], s.Owners, 0) {
+				via = append(via, name)
+				continue
+			}
 			bad++
 			r.Bad(s.ID+" @ "+name, rule, firstPos[name], fmt.Sprintf("%s performs [%s] (%d site(s)) but is not an owner; owners: %s", name, s.Op, byOwner[name], ownerList(s.Owners)))
 		}
 	}
 	if bad == 0 {
-		r.OK(s.ID, rule, "", fmt.Sprintf("%d sites in %d functions, all owners: %s", n, len(names), strings.Join(names, ", ")), true)
+		d := fmt.Sprintf("%d sites in %d functions, all owners: %s", n, len(names), strings.Join(names, ", "))
+		if len(via) > 0 {
+			d += "; private helpers called only by owners: " + strings.Join(via, ", ")
+		}
+		r.OK(s.ID, rule, "", d, true)
 	}
+}
+
+// onlyCalledByOwners: fn is an unexported named function, never used as a value, and every call of it sits in an owner
+// (or in another such helper, two levels).
+func (r *Report) onlyCalledByOwners(fn *ssa.Function, owners map[string]string, depth int) bool {
+	if fn == nil || fn.Parent() != nil || depth > 2 {
+		return false
+	}
+	obj, ok := fn.Object().(*types.Func)
+	if !ok || obj.Exported() {
+		return false
+	}
+	sites := r.P.CallSites(SSAFn(fn, fn.Name()), true)
+	n := 0
+	for _, s := range sites {
+		if r.P.FileClass(r.P.FuncPos(s.Fn)) != "prod" {
+			continue
+		}
+		ci, isCall := s.Instr.(ssa.CallInstruction)
+		if !isCall || ci.Common().StaticCallee() != fn {
+			return false // referenced as a value
+		}
+		n++
+		caller := Outer(s.Fn)
+		if _, ok := r.ownerOf(owners, r.P.FuncName(caller)); ok {
+			continue
+		}
+		if !r.onlyCalledByOwners(caller, owners, depth+1) {
+			return false
+		}
+	}
+	return n > 0
 }
 
 func ownerList(m map[string]string) string {
